@@ -25,7 +25,7 @@ from .tlaval import to_plain
 from . import core as _core  # noqa: F401  (puts the pony tree on sys.path)
 
 from pony.orm import core as pcore
-from pony.orm import (Database, PrimaryKey, Required, Optional, Set, db_session, select, flush, rollback,
+from pony.orm import (Database, PrimaryKey, Required, Optional, Set, db_session, select, flush, rollback, commit,
                       OptimisticCheckError, UnrepeatableReadError, CommitException)
 
 WATCHDOG = 60.0
@@ -106,6 +106,7 @@ def edge_class(src, dst):
     holder = int(src['lockHolder'])
     key = [str(src['kind']['a']), str(src['kind']['b']),
            str(ev['k']), str(ev['x']), str(ev['m']), str(ev['out']), str(ev['step']), str(_at(src['mode'], s)),
+           bool(_at(src['imm'], s)), bool(_at(src['touched'], s)),
            'mine' if holder == s else ('free' if holder == 0 else 'other'), len(src['waiting']),
            bool(_at(src['collFull'], s)),
            tuple(sorted(str(x) for x in _at(src['status'], s)))]
@@ -282,9 +283,12 @@ class World(object):
     """One database + mapping per (kinds, variant); rows are reset for every interleaving from a template file."""
 
     def __init__(self, scratch, kinds, variant=0, no=2):
+        """variant bit 0: optimistic=False int / float for kind nonopt; bit 1: attribute b is declared in a
+        subclass S of T and every row is an S (queries and lookups still go through the base entity T)."""
         self.kinds = tuple(kinds)
         self.variant = variant
         self.no = no
+        self.inherit = bool(variant & 2) and 'link' not in kinds
         self.link = None
         for name, k in zip('ab', kinds):
             if k == 'link':
@@ -296,10 +300,15 @@ class World(object):
             if os.path.exists(p):
                 os.remove(p)
         db = self.db = Database()
-        ns = {'id': PrimaryKey(int), 'a': _attr(kinds[0], variant, None), 'b': _attr(kinds[1], variant, None)}
+        ns = {'id': PrimaryKey(int), 'u': Required(int, unique=True), 'a': _attr(kinds[0], variant, None)}
         if self.link:
             self.P = type('P', (db.Entity,), {'id': PrimaryKey(int), 'items': Set('T', reverse=self.link)})
-        self.T = type('T', (db.Entity,), ns)
+        if self.inherit:
+            self.T = type('T', (db.Entity,), ns)
+            self.S = type('S', (self.T,), {'b': _attr(kinds[1], variant, None)})
+        else:
+            ns['b'] = _attr(kinds[1], variant, None)
+            self.S = self.T = type('T', (db.Entity,), ns)
         db.bind('sqlite', self.path, create_db=True)
         db.generate_mapping(create_tables=True)
         with db_session:
@@ -308,7 +317,7 @@ class World(object):
                 vals = {}
                 for name, k in zip('ab', kinds):
                     vals[name] = (p if o == 1 else None) if k == 'link' else 0
-                self.T(id=o, **vals)
+                self.S(id=o, u=10 + o, **vals)
         db.disconnect()
         shutil.copyfile(self.path, self.template)
         self.tlock = db.provider.transaction_lock = StepLock('transaction_lock')
@@ -352,7 +361,7 @@ def family(exc):
 
 
 MODE_KW = {'opt': [{}], 'imm': [{'immediate': True}], 'ser': [{'serializable': True}, {'optimistic': False}]}
-LOCK_KW = {'wait': {}, 'nowait': {'nowait': True}, 'skip_locked': {'skip_locked': True}, '-': {}}
+LOCK_KW = {'wait': {}, 'nowait': {'nowait': True}, 'skip_locked': {'skip_locked': True}, 'bykey': {}, '-': {}}
 
 
 class Worker(threading.Thread):
@@ -413,7 +422,10 @@ class Worker(threading.Thread):
             obj.delete()
             return ('ok', None)
         if k == 'GFU':
-            obj = T.get_for_update(id=cmd['o'], **LOCK_KW[cmd['m']])
+            if cmd['m'] == 'bykey':
+                obj = T.get_for_update(u=10 + cmd['o'])      # unique non-pk key
+            else:
+                obj = T.get_for_update(id=cmd['o'], **LOCK_KW[cmd['m']])
             return ('none', None) if obj is None else ('ok', None)
         if k in ('Q', 'QFU'):
             w.qcounter += 1
@@ -422,6 +434,17 @@ class Worker(threading.Thread):
             if k == 'QFU':
                 q = q.for_update(**LOCK_KW[cmd['m']])
             return ('ok', sorted(t.id for t in q[:]))
+        if k == 'QR':
+            w.qcounter += 1
+            n = -w.qcounter
+            if cmd['x'] == 'a':
+                q = select(t for t in T if t.a > n)
+            else:
+                q = select(t for t in T if t.b > n)          # with inheritance: subclass attribute, base entity
+            return ('ok', sorted(t.id for t in q[:]))
+        if k == 'CM':
+            commit()
+            return ('ok', None)
         if k == 'RC':
             return ('ok', sorted(t.id for t in set(w.P[1].items)))
         if k == 'LC':
@@ -538,7 +561,7 @@ def _norm_ret(st, res):
         return 'ok', int(v)
     if k == 'LC':
         return 'ok', int(v)
-    if k in ('Q', 'QFU', 'RC'):
+    if k in ('Q', 'QFU', 'QR', 'RC'):
         return 'ok', list(v)
     return 'ok', None
 
@@ -549,7 +572,7 @@ def _expected_ret(st):
     k = st['k']
     if k in ('R', 'LC'):
         return 'ok', st['retv']
-    if k in ('Q', 'QFU', 'RC'):
+    if k in ('Q', 'QFU', 'QR', 'RC'):
         return 'ok', st['rets']
     return 'ok', None
 
@@ -597,7 +620,9 @@ class Worlds(object):
         self.cache = {}
 
     def get(self, script):
-        key = (tuple(script['kinds']), script.get('variant', 0) % 2 if 'nonopt' in script['kinds'] else 0, script['no'])
+        v = script.get('variant', 0)
+        flavour = (v & 1 if 'nonopt' in script['kinds'] else 0) | (v & 2 if 'link' not in script['kinds'] else 0)
+        key = (tuple(script['kinds']), flavour, script['no'])
         w = self.cache.get(key)
         if w is None:
             w = self.cache[key] = World(self.scratch, key[0], key[1], key[2])
